@@ -328,6 +328,8 @@ def rule_conv(ctx):
 # ... and the client's own view follows the resulting update (C15.MIRROR)
 IMPORTS = [('C05', 'C05.KEY'), ('C02', 'C02.OWN'), ('C09', 'C09.STEP'), ('C04', 'C04.DEV'), ('C10', 'C10.PARSE'), ('C02', 'C02.DECODE'), ('C02', 'C02.LOOP'), ('C02', 'C02.CONSUME'), ('C15', 'C15.MIRROR'), ('C10', 'C10.SIGN')]
 
+EXPLANATION = EXPLANATION + ' C06.SUBMIT covers pending values that are opaque and pending values that are the smallest member of their domain (0, 0.0, the empty text, an empty BLOB built by its constructor): a pending value is submitted whatever its truth value.'
+
 RULES = [
     ("C06.KEY", rule_key, "dispatch: exactly the named elements of the addressed, kind-matching property; nothing else"),
     ("C06.SUBMIT", rule_submit, "client submit: one message, own address, exactly the pending parts, pending cleared"),
